@@ -177,7 +177,6 @@ func edges(deps [][]int) int {
 	return k
 }
 
-
 // ---- sessions: one graph, one detector, several runs of Check ---------------------------------
 
 // event: one thing done to the graph or to the detector. Targets are numbered in the order in which
@@ -199,7 +198,7 @@ type checkObs struct {
 	FreshFound bool    `json:"-"` // a detector made for this one call, on the same graph at the same moment
 	FreshCycle []int   `json:"-"`
 	Stopped    bool    `json:"stopped,omitempty"`
-	Edges      [][]int `json:"-"` // what the harness resolved so far (its own bookkeeping)
+	Edges      [][]int `json:"-"`          // what the harness resolved so far (its own bookkeeping)
 	Unresolved int     `json:"unresolved"` // declared dependencies without a resolved target at this moment
 }
 
@@ -452,10 +451,10 @@ func randomSession(r *lib.Rng) (string, int, []event) {
 	}
 	phantoms := r.Intn(3) // labels that never become targets
 	type action struct {
-		e       event
-		needs   []int // targets that must exist
-		after   int   // index of an action that must have run, -1 if none
-		done    bool
+		e     event
+		needs []int // targets that must exist
+		after int   // index of an action that must have run, -1 if none
+		done  bool
 	}
 	acts := []*action{}
 	for i := 0; i < n; i++ {
@@ -729,7 +728,12 @@ func main() {
 			"(thorough: also 4 targets x 24 orders, and all self-reference-free graphs on 5 targets under one random order each); " +
 			"random graphs on 1-12 targets from 7 shapes (G(n,p), DAG, DAG + 1 back edge, DAG + several, completed subgraph + tail cycle, ring + chords, chain) " +
 			"with random label assignment and occasional duplicate dependencies; each graph is a real core.BuildGraph run through cycleDetector.Check. " +
-			"distinct = distinct (labels, dependency lists); non-trivial = at least 2 targets and 1 dependency")
+			"SESSIONS (one graph and ONE cycleDetector kept, Check called repeatedly while targets are added and dependencies declared/resolved): " +
+			"all two-phase sessions on 2 targets (every dependency, self references included: absent / declared never resolved / resolved before the first Check / " +
+			"declared before the first and resolved before the second Check) and on 3 targets (self-reference-free) under every label assignment; " +
+			"random sessions reaching a random graph of <= 9 targets step by step (targets added over time, dependencies declared before being resolved, " +
+			"never resolved, or naming labels that never become targets, 1-12 Checks in between, sometimes Stop, 1 in 16 through the detector of a real BuildState). " +
+			"distinct = distinct (labels, dependency lists) or (labels, steps); non-trivial = at least 2 targets and 1 resolved dependency (sessions: and at least 2 Checks or 1 unresolved declared dependency)")
 
 		do := func(in input, kind string, withCase bool) {
 			o := run(in)
@@ -759,8 +763,62 @@ func main() {
 			}
 		}
 
+		doSession := func(in input, kind string, withCase bool) {
+			o := runSession(in)
+			js := sessionJSON(in, o, -1)
+			key := fmt.Sprint(in.Labels, in.Steps, in.ViaState)
+			nTargets, nResolved, unresolved := 0, 0, 0
+			for _, e := range in.Steps {
+				switch e.Op {
+				case "add":
+					nTargets++
+				case "resolve":
+					nResolved++
+				}
+			}
+			for _, ch := range o.Checks {
+				unresolved += ch.Unresolved
+			}
+			nontrivial := nTargets >= 2 && nResolved >= 1 && (len(o.Checks) >= 2 || unresolved >= 1)
+			if withCase {
+				c.Case(coqSession(in, o), js, key, nontrivial)
+			} else {
+				c.Eval(js, key, nontrivial)
+			}
+			prev := ""
+			for k, ch := range o.Checks {
+				c.Oracle()
+				if class, what := sessionOracle(in, k, ch); class != "" {
+					c.Fail(class, what, sessionJSON(in, o, k))
+				}
+				verdict := "clean"
+				if ch.Found {
+					verdict = "cycle"
+				}
+				if ch.Stopped {
+					verdict = "stopped"
+				}
+				if k > 0 {
+					c.Hist("session_rerun_verdict", prev+"->"+verdict)
+				}
+				prev = verdict
+				if ch.Unresolved > 0 {
+					c.Hist("session_check_unresolved_deps", "1+")
+				} else {
+					c.Hist("session_check_unresolved_deps", "0")
+				}
+			}
+			c.Hist("shape", "session:"+kind)
+			c.Hist("session_checks", bucket(len(o.Checks)))
+			c.Hist("session_targets", bucket(nTargets))
+		}
+
 		var rp input
 		if c.ReadReplay(&rp) {
+			if len(rp.Steps) > 0 {
+				doSession(rp, "replay", true)
+				return
+			}
 			if len(rp.Labels) != len(rp.Deps) {
 				panic("replay: labels and deps differ in length")
 			}
@@ -779,7 +837,7 @@ func main() {
 				for k, p := range perms {
 					// 4 targets: every order goes through the oracle, one order per graph (rotating) through the model
 					withCase := n <= 3 || k == int(mask%uint64(len(perms)))
-					do(input{permuted(pool, p), deps}, fmt.Sprintf("exhaustive-%d", n), withCase)
+					do(input{Labels: permuted(pool, p), Deps: deps}, fmt.Sprintf("exhaustive-%d", n), withCase)
 				}
 			}
 		}
@@ -790,9 +848,59 @@ func main() {
 			pool := labelPool(n)
 			for mask := uint64(0); mask < 1<<uint(n*(n-1)); mask++ {
 				r := c.Rng.Fork()
-				do(input{permuted(pool, randPerm(r, n)), graphFromMaskNoSelf(n, mask)}, "exhaustive-5-noself", false)
+				do(input{Labels: permuted(pool, randPerm(r, n)), Deps: graphFromMaskNoSelf(n, mask)}, "exhaustive-5-noself", false)
 			}
 			c.Note("exhaustive: every self-reference-free directed graph on 5 targets, one random order each (oracle only)")
+		}
+
+		// --- 1b. sessions: every two-phase session on 2 targets (self references included) and on 3
+		// targets (self-reference-free), under every assignment of labels (= every AllTargets order)
+		for n := 2; n <= 3; n++ {
+			pool := labelPool(n)
+			perms := [][]int{}
+			lib.Perms(n, func(p []int) { perms = append(perms, append([]int{}, p...)) })
+			radix := make([]int, n*n) // number of states of each dependency
+			total := 1
+			for i := 0; i < n; i++ {
+				for j := 0; j < n; j++ {
+					switch {
+					case i != j:
+						radix[i*n+j] = 4
+					case n == 2:
+						radix[i*n+j] = 3 // self: absent / resolved early / resolved late (coded 0, 2, 3)
+					default:
+						radix[i*n+j] = 1
+					}
+					total *= radix[i*n+j]
+				}
+			}
+			st := make([]int, n*n)
+			for code := 0; code < total; code++ {
+				x := code
+				for q := range st {
+					st[q] = x % radix[q]
+					x /= radix[q]
+					if radix[q] == 3 && st[q] >= 1 {
+						st[q]++
+					}
+				}
+				steps := twoPhaseSession(n, st)
+				for k, p := range perms {
+					withCase := n == 2 || c.Thor || k == code%len(perms)
+					doSession(input{Labels: permuted(pool, p), Steps: steps}, fmt.Sprintf("two-phase-%d", n), withCase)
+				}
+			}
+		}
+		c.Note("exhaustive: every two-phase session (dependency absent / declared only / resolved before Check 1 / declared before Check 1 and resolved before Check 2) " +
+			"on 2 targets with self references and on 3 targets without, one kept detector, under every AllTargets order")
+
+		// --- 1c. random sessions
+		nsess := c.Scale(1200, 20000)
+		for i := 0; i < nsess; i++ {
+			r := c.Rng.Fork()
+			kind, nlabels, steps := randomSession(r)
+			in := input{Labels: permuted(labelPool(nlabels), randPerm(r, nlabels)), Steps: steps, ViaState: r.Chance(1, 16)}
+			doSession(in, kind, true)
 		}
 
 		// --- 2. random graphs up to 12 targets, random order
@@ -801,11 +909,11 @@ func main() {
 			r := c.Rng.Fork()
 			kind, deps := randomGraph(r)
 			n := len(deps)
-			in := input{permuted(labelPool(n), randPerm(r, n)), deps}
+			in := input{Labels: permuted(labelPool(n), randPerm(r, n)), Deps: deps}
 			do(in, kind, true)
 			// the same graph under two more orders: oracle only (the verdict must not depend on the order)
 			for k := 0; k < 2; k++ {
-				do(input{permuted(labelPool(n), randPerm(r, n)), deps}, kind, false)
+				do(input{Labels: permuted(labelPool(n), randPerm(r, n)), Deps: deps}, kind, false)
 			}
 		}
 	})
